@@ -78,7 +78,7 @@ Theorem C03_schur n1 n2 (A : 'M[F]_n1) (B : 'M[F]_(n1, n2)) (C : 'M[F]_(n2, n1))
   A \in unitmx -> D - C *m invmx A *m B \in unitmx ->
   invmx (block_mx A B C D) = schur_inverse A B C D
   /\ \det (block_mx A B C D) = \det A * \det (D - C *m invmx A *m B).
-Proof. by move=> uA uS; split; [exact: schur_inv | exact: schur_det]. Qed.
+Proof. exact: schur_inv_det. Qed.
 
 Section Likelihood.
 Hypothesis flogM : forall x y : F, x != 0 -> y != 0 -> flog (x * y) = flog x + flog y.
@@ -149,6 +149,16 @@ Theorem C03_filter_is_batch (a : 'cV[F]_n) (Q : 'M[F]_n) (ps : seq (period M n n
   /\ l_nll (likelihood false (krun a Q ps)) = nll_gauss flog flog2pi (j_mY j) (j_CYY j) (j_Y j).
 Proof. exact: filter_is_batch. Qed.
 
+(* 7'. ... and so are the predicted moments: if (a, Q) is the conditional law of the state given the data
+       so far, the prediction (a0, Q0) of the next period is the conditional law of the next state given the
+       same data (push-forward of the joint law through the transition equation) *)
+Theorem C03_prediction_is_batch N (j : joint F n N) (a : 'cV[F]_n) (Q : 'M[F]_n) (p : period M n nw) (f : frec p) :
+  filtered j a Q -> step_spec a Q f ->
+  let j' := jpredict p j in
+  f_a0 f = cond_mean (j_ma j') (j_mY j') (j_CaY j') (j_CYY j') (j_Y j')
+  /\ f_Q0 f = cond_cov (j_Caa j') (j_CaY j') (j_CYY j').
+Proof. exact: prediction_is_batch. Qed.
+
 End Likelihood.
 
 (* non-vacuity: a concrete one-dimensional system with two observed periods (T = P = Z = H = 1, unit
@@ -175,3 +185,4 @@ Print Assumptions C03_rescale_variance_law.
 Print Assumptions C03_rescale_variance_no_observations.
 Print Assumptions C03_rescale_is_scaled_model.
 Print Assumptions C03_filter_is_batch.
+Print Assumptions C03_prediction_is_batch.
